@@ -33,7 +33,7 @@ FUNCTIONS = [
 BOUNDS = {
     "quick": "bandwidth b in {1,2}: n in [2b, 6]; b=3: n in {6,7}; b=4 (min_detection_interval 2): n=9; p in {1,2}; "
              "every admissible min_detection_interval; all scores and the threshold scale symbolic",
-    "thorough": "b in {1,2,3}: n<=8; b=4, b=6: n<=13 with min_detection_interval in {1,2,3}; p<=2",
+    "thorough": "b in {1,2,3}: n<=10; b=4: n<=12; b=6: n in {13,15}; every documented min_detection_interval; p<=2",
 }
 STUBS = ["TableChangeScore: user-defined change score returning one free real per (start, split, end, column)"]
 ASSUMPTIONS = ["threshold_scale >= 0 (symbolic)", "exact real arithmetic",
@@ -219,8 +219,8 @@ def jobs(tier, mode="c08"):
         grid = [(n, 1, p) for n in range(2, 7) for p in (1, 2)] + [(n, 2, 1) for n in range(4, 7)] + [(6, 2, 2), (6, 3, 1), (7, 3, 1), (9, 4, 1)]
         l2 = [(5, 1, 1), (5, 2, 2), (6, 3, 1)]
     else:
-        grid = ([(n, 1, p) for n in range(2, 9) for p in (1, 2)] + [(n, 2, p) for n in range(4, 9) for p in (1, 2)]
-                + [(n, 3, 1) for n in range(6, 9)] + [(n, 4, 1) for n in range(8, 12)] + [(13, 6, 1)])
+        grid = ([(n, 1, p) for n in range(2, 11) for p in (1, 2)] + [(n, 2, p) for n in range(4, 11) for p in (1, 2)]
+                + [(n, 3, 1) for n in range(6, 11)] + [(n, 4, 1) for n in range(8, 13)] + [(13, 6, 1), (15, 6, 1)])
         l2 = [(n, b, p) for n in (4, 6, 7) for b in (1, 2, 3) for p in (1, 2) if n >= 2 * b]
     for (n, b, p) in grid:
         for mdi in admissible_mdi(b):
